@@ -1,10 +1,14 @@
 //! Deterministic simulation with fault injection for cucumber-rs/cucumber.
 #![allow(clippy::all)]
 
+pub mod check;
 pub mod core;
 pub mod genplan;
+pub mod model;
+pub mod oracle_a;
 pub mod parser;
 pub mod plan;
 pub mod record;
 pub mod runa;
+pub mod shrink;
 pub mod world;
